@@ -596,10 +596,11 @@ impl Check for C06 {
                             it.out.count("inconclusive_resource_exhaustion", 1);
                             return;
                         }
-                        // the listed finding covers exactly: an index file that is empty or ends
-                        // inside its header/MPHF. Anything else that blocks reopening is reported
-                        // under its own signature.
-                        let sig = if cut_early { "C06/open-failed" } else if damaged { "C06/open-failed/index-cut-behind-mphf" } else { "C06/open-failed/complete-indexes" };
+                        // the listed finding covers a *truncated* index file (empty, or cut anywhere:
+                        // the loader reads the whole file). Complete files that block reopening are
+                        // reported under their own signature.
+                        let _ = cut_early;
+                        let sig = if damaged { "C06/open-failed" } else { "C06/open-failed/complete-indexes" };
                         it.out.fail(sig, format!("reopening fails when index files of sealed segment {bucket}:{seg_id} are {}: {e}", serde_json::to_string(&desc).unwrap_or_default()));
                         return;
                     }
